@@ -162,6 +162,7 @@ func runMulti(r *runner, prop string, h *History) ([]violation, *stats) {
 	root := r.tmp("proj")
 	defer os.RemoveAll(root)
 	p := h.Proj.clone()
+	r.args = p.flagArgs()
 	if len(h.Ops) > 0 {
 		pre := *h
 		pre.Runs = nil
